@@ -21,8 +21,8 @@ from mc.bind import HarnessError, seam
 
 ID = 'C20'
 RULE = ('every injection point discovered by an instrumented fault-free run (molecule write k of n, header rewrite, sort, index, '
-        'pool job j, merge, temp-folder cleanup; before/after and, for sort and merge, inside = half-written output) x fault kind '
-        '{exception, kill} x {single, --multiprocess} x {nla, chic}; thorough adds every pair of consecutive points for exceptions; '
+        'pool job j, merge, temp-folder cleanup, input verification, failing arguments; before/after and, for sort and merge, inside = half-written output) x fault kind '
+        '{exception, kill} x {single, --multiprocess} x {nla, chic} x {fresh output path, re-run over the finished output of an earlier run}; thorough adds every pair of consecutive points for exceptions; '
         'non-trivial = fault injected after at least one molecule was written; states = executions in forked children')
 ASSUMPTIONS = [
     'kills land at Python-level step boundaries (and one modelled mid-sort / mid-merge point), not inside htslib',
@@ -115,7 +115,7 @@ def _half_copy(src, dst):
     return cb
 
 
-def child_main(inp_path, out_path, tmpdir, mode, method, plan, log_path):
+def child_main(inp_path, out_path, tmpdir, mode, method, plan, log_path, extra_argv=()):
     """runs in the forked child; never returns"""
     code = 3
     try:
@@ -145,12 +145,15 @@ def child_main(inp_path, out_path, tmpdir, mode, method, plan, log_path):
         shim = _Shim(real_pysam, sort=inj.wrap('sort', real_pysam.sort, sort_inside), index=inj.wrap('index', real_pysam.index))
         bf.pysam = shim
         tm.pysam = shim
+        seam(tm, 'verify_and_fix_bam')
+        tm.verify_and_fix_bam = inj.wrap('verify_input', tm.verify_and_fix_bam)
         tm.run_tagging_tasks = inj.wrap('pool_job', tm.run_tagging_tasks)
         tm.merge_bams = inj.wrap('merge', tm.merge_bams, merge_inside)
         tm.shutil = _Shim(tm.shutil, rmtree=inj.wrap('cleanup', tm.shutil.rmtree))
         argv = [inp_path, '-method', method, '-o', out_path, '-temp_folder', tmpdir]
         if mode == 'multi':
             argv.append('--multiprocess')
+        argv += list(extra_argv)
         exc, sch = tagger.run_tagger(argv)
         if log_path:
             with open(log_path, 'w') as f:
@@ -163,7 +166,24 @@ def child_main(inp_path, out_path, tmpdir, mode, method, plan, log_path):
         os._exit(code)
 
 
-def run_plan(mode, method, plan, want_log=False):
+BADARGS = {'region': ['-region_start', '5'],                    # -region_start without -region_end
+           'transcriptome': ['-method', 'nla_transcriptome']}    # needs -exons / -introns
+
+
+def _fork_run(inp, out, d, mode, method, plan, log_path, extra_argv=()):
+    sys.stdout.flush()
+    sys.stderr.flush()
+    pid = os.fork()
+    if pid == 0:
+        child_main(inp, out, d, mode, method, plan, log_path, extra_argv)
+    _, status = os.waitpid(pid, 0)
+    return os.waitstatus_to_exitcode(status)
+
+
+def run_plan(mode, method, plan, want_log=False, prior=False):
+    """plan entries are (site, occurrence, when, kind); the pseudo site 'badargs' (occurrence = key of BADARGS) makes the run
+    fail in its own set-up through its arguments.  prior=True: a complete successful run to the same output path precedes
+    the faulty one (history: the status file and the output of an earlier run exist)."""
     d = tempfile.mkdtemp(prefix='c20_', dir='/dev/shm')
     try:
         inp = os.path.join(d, 'in.bam')
@@ -171,13 +191,19 @@ def run_plan(mode, method, plan, want_log=False):
         inrecs = records(inp)
         out = os.path.join(d, 'out.bam')
         log_path = os.path.join(d, 'events.log') if want_log else None
-        sys.stdout.flush()
-        sys.stderr.flush()
-        pid = os.fork()
-        if pid == 0:
-            child_main(inp, out, d, mode, method, plan, log_path)
-        _, status = os.waitpid(pid, 0)
-        code = os.waitstatus_to_exitcode(status)
+        if prior:
+            c0 = _fork_run(inp, out, d, mode, method, [], None)
+            st = out.replace('.bam', '.status.txt')
+            if c0 != 0 or not os.path.exists(st) or SUCCESS not in open(st).read():
+                raise HarnessError(f'C20: the preceding fault-free run did not succeed (exit {c0})')
+        extra = []
+        real_plan = []
+        for p in plan:
+            if p[0] == 'badargs':
+                extra += BADARGS[p[1]]
+            else:
+                real_plan.append(p)
+        code = _fork_run(inp, out, d, mode, method, real_plan, log_path, extra)
         if code == 4:
             raise HarnessError('C20 child failed outside the code under test (seam missing or harness bug)')
         status_path = out.replace('.bam', '.status.txt')
@@ -186,16 +212,16 @@ def run_plan(mode, method, plan, want_log=False):
         if want_log and os.path.exists(log_path):
             events = [tuple(l.rstrip('\n').split('\t')) for l in open(log_path)]
             events = [(s, int(o)) for s, o in events]
-        viol = judge(mode, method, plan, code, text, out, inrecs)
+        viol = judge(mode, method, plan, code, text, out, inrecs, prior)
         return viol, {'exit': code, 'status': text, 'events': events}
     finally:
         shutil.rmtree(d, ignore_errors=True)
 
 
-def judge(mode, method, plan, code, text, out, inrecs):
+def judge(mode, method, plan, code, text, out, inrecs, prior=False):
     viol = []
     says_success = (text is not None and SUCCESS in text)
-    tag = f'{mode}:{method}'
+    tag = f'{mode}:{method}' + (':rerun-over-finished-output' if prior else '')
     where = '+'.join(f'{s}:{w}' for s, o, w, k in plan) or 'no-fault'
     kinds = '+'.join(sorted({k for s, o, w, k in plan})) or 'none'
     if says_success and code != 0:
@@ -256,14 +282,16 @@ def shards(tier):
         for method in ('nla', 'chic'):
             for kind in ('exception', 'kill'):
                 for part in range(4):
-                    out.append((mode, method, kind, part, 4))
+                    out.append((mode, method, kind, part, 4, False))
+                for part in range(4):
+                    out.append((mode, method, kind, part, 4, True))
     return out
 
 
 def run_shard(shard, tier, acc):
-    mode, method, kind, part, nparts = shard
+    mode, method, kind, part, nparts, prior = shard
     pts, viol0, info0 = points_for(mode, method)
-    if part == 0 and kind == 'exception':
+    if part == 0 and kind == 'exception' and not prior:
         case = {'mode': mode, 'method': method, 'plan': []}
         acc.case(case, transitions=len(pts), nontrivial=False, outcome=f'clean:exit={info0["exit"]}:status={info0["status"]}')
         for sig, d in viol0:
@@ -271,7 +299,9 @@ def run_shard(shard, tier, acc):
         if info0['exit'] != 0 or info0['status'] is None or SUCCESS not in info0['status']:
             acc.violation(f'{mode}:{method}:fault-free-run-did-not-report-success', case, info0)
     plans = [[(s, o, w, kind)] for (s, o, w) in pts]
-    if bounds(tier)['deviation_bound'] >= 2 and kind == 'exception':
+    if kind == 'exception':
+        plans += [[('badargs', k, 'setup', 'exception')] for k in sorted(BADARGS)]
+    if bounds(tier)['deviation_bound'] >= 2 and kind == 'exception' and not prior:
         for i in range(len(pts) - 1):
             plans.append([pts[i] + (kind,), pts[i + 1] + (kind,)])
         # sort is retried at other temp locations: all three attempts failing
@@ -283,19 +313,19 @@ def run_shard(shard, tier, acc):
     for i, plan in enumerate(plans):
         if i % nparts != part:
             continue
-        case = {'mode': mode, 'method': method, 'plan': [list(p) for p in plan]}
-        viols, info = run_plan(mode, method, plan)
+        case = {'mode': mode, 'method': method, 'plan': [list(p) for p in plan], 'prior': prior}
+        viols, info = run_plan(mode, method, plan, prior=prior)
         first = plan[0]
         nontrivial = first[0] in written_sites or (first[0] == 'write_pysam' and (first[1] > 0 or first[2] == 'after')) or first[0] == 'pool_job'
         acc.case(case, transitions=1, nontrivial=nontrivial,
-                 outcome=f"{mode}:{first[0]}:{first[2]}:{kind}:exit={info['exit']}:status={(info['status'] or 'none')[:12]}")
+                 outcome=f"{mode}:{'rerun:' if prior else ''}{first[0]}:{first[2]}:{kind}:exit={info['exit']}:status={(info['status'] or 'none')[:12]}")
         for sig, d in viols:
             acc.violation(sig, case, d)
 
 
 def replay(case):
     plan = [tuple(p) for p in case['plan']]
-    viols, info = run_plan(case['mode'], case['method'], plan)
+    viols, info = run_plan(case['mode'], case['method'], plan, prior=case.get('prior', False))
     if not plan and (info['exit'] != 0 or info['status'] is None or SUCCESS not in info['status']):
         viols.append((f"{case['mode']}:{case['method']}:fault-free-run-did-not-report-success", info))
     return viols
